@@ -34,6 +34,8 @@ def auto_discharge(site, fn, T, panic_abort):
         a = site.terms[0] if site.terms else None
         b = site.terms[1] if len(site.terms) > 1 else None
         if m["k"] == "Overflow":
+            if m.get("op") == "Add" and _is_unit_counter(fn, T, a, b):
+                return "increment by 1 of a 64-bit local counter that starts at 0 (2^64 increments are infeasible)"
             if is_const(a) and is_const(b):
                 return "constant operands (evaluated by the compiler's arithmetic_overflow lint)"
             if m.get("op") in ("Div", "Rem") and is_const(b) and b[1] != -1:
@@ -143,6 +145,26 @@ def pnames(fn, ty_substr=None, index=None):
 def is_p(t, names):
     """t is a parameter (or a capture of it in the async body / a closure) with one of `names`"""
     return t[0] in ("upvar", "param") and t[-1] in names
+
+
+def _is_unit_counter(fn, T, a, b):
+    if b != ("const", 1) or a is None or a[0] != "var":
+        return False
+    l = a[1]
+    if fn.locals[l].s not in ("usize", "u64", "i64", "isize", "u128", "i128"):
+        return False
+    for d in T.defs.get(l, ()):
+        if d[0] != "s":
+            return False
+        r = fn.blocks[d[1]]["s"][d[2]]["r"]
+        v = T.rvalue(r)
+        if v == ("const", 0):
+            continue
+        # the increment itself: (l + 1).0 of the checked add
+        if any(x[0] == "bin" and x[1].startswith("Add") and x[2][0] == "var" and x[2][1] == l and x[3] == ("const", 1) for x in subterms(v)):
+            continue
+        return False
+    return True
 
 
 def _guarded_nonzero(fn, T, bb, divisor):
